@@ -1,4 +1,4 @@
-import Slock.Proofs.AofFile
+import Slock.Proofs.AofCut
 import Slock.Gen.Layouts
 /-!
 # C08 — crash at any byte of the log recovers a clean record prefix
@@ -8,19 +8,19 @@ Go's `bufio.Reader` semantics, for EVERY buffer size `cfg`. `encodeFile` / `enco
 A record list is well-formed (`WFRec`) when every record is 64 bytes starting 62,0, has the has-value flag iff it has a value
 frame, and value frames are length-prefixed.
 
-State after the repairs `fix: ReadLock returns the second read's error …` and `fix: AofFile.Open in append mode truncates …`:
+State after the repairs (ReadLock returns the second read's error; append-mode Open truncates to a record boundary; ReadHeader
+reports a short header as end of file; ReadLock reads the rest of a record with io.ReadFull; the start-up load cuts a record
+whose value is missing off both files): **the property holds in the model for every input** —
 
-* **for every cut of the record file and every consistent cut of the value file, whatever is handed to the engine is exactly
-  the live prefix of the complete records whose values are complete** (`C08_all_cuts`, hence `C08_no_reconstruction` for all
-  cuts): no record is ever reconstructed from partial bytes;
-* the next start SUCCEEDS for every cut except (a) 1–11 bytes of header left (`C08_header_cut_fails`, all inputs) and (b) a
-  torn record that straddles a bufio refill — "Lock Len error" (`C08_restart_fails_torn`, witness; residues 53–63 of the 64th,
-  128th, … record with the default 4096-byte buffer, of every record with a 64-byte buffer). `C08_all_cuts` states that these
-  are the only cuts that can fail. So the full `C08_prefix` ("the next start succeeds") is still FALSE at those cuts;
-* second restart: after ANY cut of the record file at or beyond the header, with complete values, the reopened file is cut
-  back to the last record boundary and the following restart recovers `pre ++ more` (`C08_second_restart`, all inputs);
-  it is still broken when a record reached the disk and its value did not (`C08_second_restart_fails_value`): the value file
-  is not realigned with the record file.
+* `C08_prefix` — for every cut of the record file (header, every residue of a torn record, beyond the end) and every
+  consistent cut of the value file, the next start SUCCEEDS and hands the engine exactly the live prefix of the complete
+  records whose values are complete; `C08_no_reconstruction`: no record is ever built from partial bytes;
+* `C08_second_restart` — after ANY such cut (record file at or beyond the header, value file anywhere) the restart leaves both
+  files aligned (`startupFiles` + the append-mode `openAppend`), and once the writer has appended `more` the following restart
+  recovers `prefix ++ more`; `C08_second_restart_header` for a cut inside the header.
+The former counterexamples are kept as repaired examples (`C08_torn_straddle_repaired`, `C08_second_restart_value_repaired`, …).
+The writer's output equation (bytes appended = `encodeRecs` / `encodeData` of the new records) is taken from the `aofappend` /
+`aofwrites` differential, as before.
 -/
 namespace Slock.C08
 open Slock.Aof
@@ -98,45 +98,37 @@ theorem C08_empty_file (cfg : Nat) (now : Int) (dat : Bytes) : load cfg now [] d
   unfold load loadFiles loadFilesFrom
   rw [loadFile_empty]
 
-/-- **Header cuts, all inputs.** 1–11 bytes of the header on disk: the next start FAILS (nothing is handed to the engine from
-this file, and the older files' records are not recovered either) — "the next start succeeds" is violated. -/
-theorem C08_header_cut_fails (cfg : Nat) (now : Int) (recs : List Rec) (dat : Bytes) (c : Nat) (h0 : 0 < c) (h12 : c < 12) :
-    load cfg now ((encodeFile recs).take c) dat = ([], false) := by
+/-- **Header cuts, all inputs.** 1–11 bytes of the header on disk: the file counts as "no records" and the start succeeds
+(the append-mode Open then rewrites the header). -/
+theorem C08_header_cut (cfg : Nat) (now : Int) (recs : List Rec) (dat : Bytes) (c : Nat) (h0 : 0 < c) (h12 : c < 12) :
+    load cfg now ((encodeFile recs).take c) dat = ([], true) := by
   have hl : ((encodeFile recs).take c).length = c := by
     simp [encodeFile, headerBytes_length]; omega
   have h := loadFile_header_cut cfg now (zeros 64) ((encodeFile recs).take c) (some dat) (by omega) (by omega)
   unfold load loadFiles loadFilesFrom
   rw [h]
 
-/-- **Torn records, all inputs, every residue 1–63.** The record file is cut `res` bytes into record `x`, after the complete
-records `pre`; the value file is cut anywhere in `pre`'s values. What is handed to the engine is exactly the live prefix of
-`pre` whose values are complete — the torn record is never replayed — and the start either succeeds or (only when all values
-were there, i.e. the reader actually reached the torn record) fails with "Lock Len error". -/
-theorem C08_torn_outcomes (cfg : Nat) (now : Int) (pre : List Rec) (x : Rec) (post : List Rec) (res dc : Nat)
+/-- **Torn records, all inputs, every residue 1–63, every buffer size.** The record file is cut `res` bytes into record `x`,
+after the complete records `pre`; the value file is cut anywhere in `pre`'s values. The start succeeds and hands the engine
+exactly the live prefix of `pre` whose values are complete. -/
+theorem C08_torn (cfg : Nat) (now : Int) (pre : List Rec) (x : Rec) (post : List Rec) (res dc : Nat)
     (hw : ∀ y ∈ pre, WFRec y) (hx : WFBuf x.buf) (h0 : 0 < res) (h64 : res < 64) :
-    (load cfg now ((encodeFile (pre ++ x :: post)).take (12 + 64 * pre.length + res)) ((encodeData pre).take dc)).1 =
-      live now (pre.take (valuePrefix pre dc)) ∧
-    ((load cfg now ((encodeFile (pre ++ x :: post)).take (12 + 64 * pre.length + res)) ((encodeData pre).take dc)).2 = true ∨
-     valuePrefix pre dc = pre.length) := by
+    load cfg now ((encodeFile (pre ++ x :: post)).take (12 + 64 * pre.length + res)) ((encodeData pre).take dc) =
+      (live now (pre.take (valuePrefix pre dc)), true) := by
   have hwb : ∀ y ∈ pre, WFBuf y.buf := fun y hy => (hw y hy).1
   rw [take_cut pre x post res hwb hx (by omega)]
   obtain ⟨e1, e2⟩ := load_eq cfg now (headerBytes ++ encodeRecs pre ++ x.buf.take res) ((encodeData pre).take dc)
   obtain ⟨h1, h2⟩ := loadFile_torn_values cfg now (zeros 64) pre x res dc hw hx zeros_oldOK h0 h64
-  refine ⟨by rw [e1, h1], ?_⟩
-  by_cases hv : valuePrefix pre dc = pre.length
-  · exact Or.inr hv
-  · left
-    rw [e2]
-    rcases h2 with h2 | h2 <;> rw [h2] <;> simp [hv]
+  have hok : (load cfg now (headerBytes ++ encodeRecs pre ++ x.buf.take res) ((encodeData pre).take dc)).2 = true := by
+    rw [e2, h2]; split <;> simp
+  rw [Prod.ext_iff]; exact ⟨by rw [e1, h1], hok⟩
 
-/-- **Every cut, all inputs.** The record file is cut at ANY byte `c`; the value file holds any prefix of the values of the
-complete records. (1) The records handed to the engine are exactly the live prefix of the complete records whose values are
-complete. (2) The start succeeds, except possibly when the cut is inside the header or inside a record. -/
-theorem C08_all_cuts (cfg : Nat) (now : Int) (recs : List Rec) (c dc : Nat) (hw : ∀ x ∈ recs, WFRec x) :
-    (load cfg now ((encodeFile recs).take c) ((encodeData (recs.take (completeRecords c))).take dc)).1 =
-      live now ((recs.take (completeRecords c)).take (valuePrefix (recs.take (completeRecords c)) dc)) ∧
-    ((load cfg now ((encodeFile recs).take c) ((encodeData (recs.take (completeRecords c))).take dc)).2 = true ∨
-      (0 < c ∧ c < 12) ∨ (12 ≤ c ∧ (c - 12) % 64 ≠ 0 ∧ completeRecords c < recs.length)) := by
+/-- **`C08_prefix`, full strength: every cut, all inputs.** The record file is cut at ANY byte `c`; the value file holds any
+prefix of the values of the complete records. The next start succeeds and the records handed to the engine are exactly the
+live prefix of the complete records whose values are complete. -/
+theorem C08_prefix (cfg : Nat) (now : Int) (recs : List Rec) (c dc : Nat) (hw : ∀ x ∈ recs, WFRec x) :
+    load cfg now ((encodeFile recs).take c) ((encodeData (recs.take (completeRecords c))).take dc) =
+      (live now ((recs.take (completeRecords c)).take (valuePrefix (recs.take (completeRecords c)) dc)), true) := by
   have hwb : ∀ x ∈ recs, WFBuf x.buf := fun x hx => (hw x hx).1
   by_cases hc12 : c < 12
   · have hk : completeRecords c = 0 := by unfold completeRecords; omega
@@ -144,13 +136,10 @@ theorem C08_all_cuts (cfg : Nat) (now : Int) (recs : List Rec) (c dc : Nat) (hw 
     by_cases hc0 : c = 0
     · subst hc0
       simp only [List.take_zero]
-      rw [C08_empty_file]
-      exact ⟨by simp [live, valuePrefix], Or.inl rfl⟩
-    · rw [C08_header_cut_fails cfg now recs _ c (by omega) hc12]
-      exact ⟨by simp [live, valuePrefix], Or.inr (Or.inl ⟨by omega, hc12⟩)⟩
+      rw [C08_empty_file]; simp [live, valuePrefix]
+    · rw [C08_header_cut cfg now recs _ c (by omega) hc12]; simp [live, valuePrefix]
   · by_cases hk : completeRecords c < recs.length
-    · -- the cut falls into record number `completeRecords c`
-      obtain ⟨pre, x, post, hrecs, hlen⟩ : ∃ pre x post, recs = pre ++ x :: post ∧ pre.length = completeRecords c := by
+    · obtain ⟨pre, x, post, hrecs, hlen⟩ : ∃ pre x post, recs = pre ++ x :: post ∧ pre.length = completeRecords c := by
         refine ⟨recs.take (completeRecords c), recs[completeRecords c], recs.drop (completeRecords c + 1), ?_, ?_⟩
         · rw [← List.drop_eq_getElem_cons hk, List.take_append_drop]
         · rw [List.length_take]; omega
@@ -162,38 +151,30 @@ theorem C08_all_cuts (cfg : Nat) (now : Int) (recs : List Rec) (c dc : Nat) (hw 
       by_cases hres : (c - 12) % 64 = 0
       · have hc' : c = 12 + 64 * pre.length := by omega
         rw [hc', hrecs, C08_prefix_partial cfg now pre (x :: post) dc hwp]
-        exact ⟨rfl, Or.inl rfl⟩
-      · obtain ⟨t1, t2⟩ := C08_torn_outcomes cfg now pre x post ((c - 12) % 64) dc hwp hx (by omega) (Nat.mod_lt _ (by omega))
-        rw [← hcres, ← hrecs] at t1 t2
-        refine ⟨t1, ?_⟩
-        rcases t2 with t2 | _
-        · exact Or.inl t2
-        · exact Or.inr (Or.inr ⟨by omega, hres, hk⟩)
-    · -- the cut is at or beyond the end of the file
-      have hlen := encodeFile_length recs hwb
+      · have t := C08_torn cfg now pre x post ((c - 12) % 64) dc hwp hx (by omega) (Nat.mod_lt _ (by omega))
+        rw [← hcres, ← hrecs] at t
+        exact t
+    · have hlen := encodeFile_length recs hwb
       have hge : recs.length ≤ completeRecords c := by omega
       have hcl : (encodeFile recs).length ≤ c := by rw [hlen]; unfold completeRecords at hge; omega
       rw [List.take_of_length_le hcl, List.take_of_length_le hge]
       have h := C08_prefix_partial cfg now recs [] dc hw
       rw [List.append_nil, ← hlen, List.take_length] at h
-      rw [h]
-      exact ⟨rfl, Or.inl rfl⟩
+      exact h
+
+/-- The next start succeeds after a crash at any byte. -/
+theorem C08_restart_succeeds (cfg : Nat) (now : Int) (recs : List Rec) (c dc : Nat) (hw : ∀ x ∈ recs, WFRec x) :
+    (load cfg now ((encodeFile recs).take c) ((encodeData (recs.take (completeRecords c))).take dc)).2 = true := by
+  rw [C08_prefix cfg now recs c dc hw]
 
 /-- **No record is ever reconstructed from partial bytes — every cut, all inputs**: each record handed to the engine is one of
 the written records, with its own 64 bytes and its own value. -/
 theorem C08_no_reconstruction (cfg : Nat) (now : Int) (recs : List Rec) (c dc : Nat) (hw : ∀ x ∈ recs, WFRec x) :
     ∀ r ∈ (load cfg now ((encodeFile recs).take c) ((encodeData (recs.take (completeRecords c))).take dc)).1, r ∈ recs := by
-  rw [(C08_all_cuts cfg now recs c dc hw).1]
+  rw [C08_prefix cfg now recs c dc hw]
   intro r hr
   simp only [live, List.mem_filter] at hr
   exact List.mem_of_mem_take (List.mem_of_mem_take hr.1)
-
-/-- When the start succeeds, the result is the clean prefix (restating `C08_all_cuts` in the shape of `C08_prefix`). -/
-theorem C08_prefix_when_started (cfg : Nat) (now : Int) (recs : List Rec) (c dc : Nat) (hw : ∀ x ∈ recs, WFRec x)
-    (hok : (load cfg now ((encodeFile recs).take c) ((encodeData (recs.take (completeRecords c))).take dc)).2 = true) :
-    load cfg now ((encodeFile recs).take c) ((encodeData (recs.take (completeRecords c))).take dc) =
-      (live now ((recs.take (completeRecords c)).take (valuePrefix (recs.take (completeRecords c)) dc)), true) := by
-  rw [Prod.ext_iff]; exact ⟨(C08_all_cuts cfg now recs c dc hw).1, hok⟩
 
 /-! ### Witnesses (evaluated by the kernel) -/
 
@@ -214,12 +195,14 @@ theorem C08_torn_tail_clean_example :
     load 4096 0 ((encodeFile [r1, r2]).take (12 + 64 + 20)) [] = (live 0 ([r1, r2].take (completeRecords (12 + 64 + 20))), true) := by
   decide
 
-/-- **`C08_prefix` is still false: the next start can fail.** With a 64-byte buffer every record straddles a refill; a cut 53
-bytes into the second record makes the next start fail ("Lock Len error"). With the default 4096-byte buffer the same happens
-for the 64th, 128th, … record of a file (residues 53–63). Nothing but `r1` has been handed to the engine. -/
-theorem C08_restart_fails_torn :
-    load 64 0 ((encodeFile [r1, r2]).take (12 + 64 + 53)) [] = ([r1], false) := by
+/-- The former counterexample to "the next start succeeds" (64-byte buffer: every record straddles a refill; cut 53 bytes into
+the second record gave "Lock Len error") is repaired: the start succeeds and recovers exactly `r1`. -/
+theorem C08_torn_straddle_repaired :
+    load 64 0 ((encodeFile [r1, r2]).take (12 + 64 + 53)) [] = ([r1], true) := by
   decide
+
+/-- A header cut no longer fails the start. -/
+theorem C08_header_cut_repaired : load 4096 0 ((encodeFile [r1, r2]).take 7) [] = ([], true) := by decide
 
 /-! ### Second restart -/
 
@@ -254,49 +237,105 @@ theorem openAppend_cut (pre : List Rec) (x : Rec) (post : List Rec) (res : Nat) 
     · rfl
     · rfl
 
-/-- **Second restart, all inputs, every cut of the record file at or beyond the header** (values complete): the restart over
-the cut log recovers `pre`; the file is reopened for append — cut back to the last record boundary —, the writer appends `more`
-(record bytes `encodeRecs more`, value bytes `encodeData more`: the writer's output, tied to the real `AofFile` by the
-`aofappend` / `aofwrites` differential), and the following restart recovers `pre ++ more`. -/
-theorem C08_second_restart (cfg : Nat) (now : Int) (pre : List Rec) (x : Rec) (post more : List Rec) (res : Nat)
-    (hw : ∀ y ∈ pre, WFRec y) (hx : WFBuf x.buf) (hm : ∀ y ∈ more, WFRec y) (h64 : res < 64) :
-    load cfg now (openAppend ((encodeFile (pre ++ x :: post)).take (12 + 64 * pre.length + res)) ++ encodeRecs more)
-        (encodeData pre ++ encodeData more) = (live now (pre ++ more), true) := by
-  rw [openAppend_cut pre x post res (fun y hy => (hw y hy).1) hx h64]
-  have hw' : ∀ y ∈ pre ++ more, WFRec y := by
+/-- What the next start reads once `P` is on disk and the writer has appended `more`. -/
+theorem load_concat (cfg : Nat) (now : Int) (P more : List Rec) (hP : ∀ y ∈ P, WFRec y) (hm : ∀ y ∈ more, WFRec y) :
+    load cfg now (encodeFile P ++ encodeRecs more) (encodeData P ++ encodeData more) = (live now (P ++ more), true) := by
+  have hw' : ∀ y ∈ P ++ more, WFRec y := by
     intro y hy; rcases List.mem_append.mp hy with h | h
-    · exact hw y h
+    · exact hP y h
     · exact hm y h
-  have h := C08_prefix_boundary cfg now (pre ++ more) [] hw'
-  have hlen := encodeFile_length (pre ++ more) (fun y hy => (hw' y hy).1)
-  have e1 : encodeFile pre ++ encodeRecs more = (encodeFile ((pre ++ more) ++ [])).take (12 + 64 * (pre ++ more).length) := by
+  have h := C08_prefix_boundary cfg now (P ++ more) [] hw'
+  have hlen := encodeFile_length (P ++ more) (fun y hy => (hw' y hy).1)
+  have e1 : encodeFile P ++ encodeRecs more = (encodeFile ((P ++ more) ++ [])).take (12 + 64 * (P ++ more).length) := by
     rw [List.append_nil, ← hlen, List.take_length]
     simp [encodeFile, encodeRecs_append]
-  have e2 : encodeData pre ++ encodeData more = encodeData (pre ++ more) := by simp [encodeData]
+  have e2 : encodeData P ++ encodeData more = encodeData (P ++ more) := by simp [encodeData]
   rw [e1, e2, h]
-  have hc : completeRecords (12 + 64 * (pre ++ more).length) = (pre ++ more).length := by unfold completeRecords; omega
+  have hc : completeRecords (12 + 64 * (P ++ more).length) = (P ++ more).length := by unfold completeRecords; omega
   rw [hc, List.append_nil, List.take_of_length_le (Nat.le_refl _)]
+
+/-- **`C08_second_restart`, full strength: all inputs, every cut of the record file at or beyond the header (any residue, any
+buffer size), the value file cut ANYWHERE.** The restart over the cut log recovers the prefix `P` = the complete records whose
+values are complete, and leaves both files describing exactly `P` (`startupFiles`: a record whose value is missing is cut off
+both files; `openAppend`: a torn record is cut off). After the writer has appended `more`, the following restart recovers
+`P ++ more`. -/
+theorem C08_second_restart (cfg cfg' : Nat) (now : Int) (pre : List Rec) (x : Rec) (post more : List Rec) (res dc : Nat)
+    (hw : ∀ y ∈ pre, WFRec y) (hx : WFBuf x.buf) (hm : ∀ y ∈ more, WFRec y) (h64 : res < 64) :
+    let sf := startupFiles cfg (zeros 64) ((encodeFile (pre ++ x :: post)).take (12 + 64 * pre.length + res)) (some ((encodeData pre).take dc))
+    load cfg' now (openAppend sf.1 ++ encodeRecs more) (sf.2.getD [] ++ encodeData more) =
+      (live now (pre.take (valuePrefix pre dc) ++ more), true) := by
+  intro sf
+  have hwb : ∀ y ∈ pre, WFBuf y.buf := fun y hy => (hw y hy).1
+  have htl : ∀ r', r'.s = x.buf.take res → r'.Inv → ∀ old, OldOK old → ∃ b, readLock r' old = .eof b := by
+    intro r' hs hi old ho
+    by_cases h0 : res = 0
+    · subst h0; exact ⟨old, readLock_eof r' old hi (by simpa using hs)⟩
+    · exact readLock_torn r' x.buf res hi hx (by omega) h64 hs old ho
+  have hsf : sf = (if valuePrefix pre dc = pre.length then (headerBytes ++ encodeRecs pre ++ x.buf.take res, some ((encodeData pre).take dc))
+       else (encodeFile (pre.take (valuePrefix pre dc)), some (encodeData (pre.take (valuePrefix pre dc))))) := by
+    show startupFiles cfg (zeros 64) _ _ = _
+    rw [take_cut pre x post res hwb hx (by omega)]
+    exact startupFiles_cut cfg (zeros 64) pre (x.buf.take res) dc hw zeros_oldOK htl
+  rw [hsf]
+  by_cases hv : valuePrefix pre dc = pre.length
+  · simp only [hv, if_true, Option.getD_some, List.take_length]
+    have hop : openAppend (headerBytes ++ encodeRecs pre ++ x.buf.take res) = encodeFile pre := by
+      rw [← take_cut pre x post res hwb hx (by omega)]; exact openAppend_cut pre x post res hwb hx h64
+    have hfit := valuePrefix_fits pre dc
+    rw [hv, List.take_length] at hfit
+    rw [hop, List.take_of_length_le hfit]
+    exact load_concat cfg' now pre more hw hm
+  · simp only [hv, if_false, Option.getD_some]
+    have hP : ∀ y ∈ pre.take (valuePrefix pre dc), WFRec y := fun y hy => hw y (List.mem_of_mem_take hy)
+    have hl := encodeFile_length (pre.take (valuePrefix pre dc)) (fun y hy => (hP y hy).1)
+    rw [openAppend_aligned _ (by rw [hl]; omega) (by rw [hl]; omega)]
+    exact load_concat cfg' now _ more hP hm
+
+/-- Second restart after a cut inside the header: the load leaves the file alone, the append-mode Open rewrites the header, and
+the following restart recovers what was appended. -/
+theorem C08_second_restart_header (cfg cfg' : Nat) (now : Int) (recs more : List Rec) (c : Nat) (h12 : c < 12)
+    (hm : ∀ y ∈ more, WFRec y) :
+    let sf := startupFiles cfg (zeros 64) ((encodeFile recs).take c) (some [])
+    load cfg' now (openAppend sf.1 ++ encodeRecs more) (sf.2.getD [] ++ encodeData more) = (live now more, true) := by
+  intro sf
+  have hl : ((encodeFile recs).take c).length = c := by simp [encodeFile, headerBytes_length]; omega
+  have hsf : sf = ((encodeFile recs).take c, some []) := by
+    show startupFiles cfg (zeros 64) _ _ = _
+    unfold startupFiles
+    by_cases h0 : c = 0
+    · subst h0; simp [readHeader_empty]
+    · rw [readHeader_short _ _ (by omega) (by omega)]
+  have hop : openAppend ((encodeFile recs).take c) = encodeFile [] := by
+    unfold openAppend
+    rw [hl]
+    by_cases h0 : c = 0
+    · simp [h0, encodeFile, encodeRecs]
+    · simp [h0, h12, encodeFile, encodeRecs]
+  rw [hsf]
+  simp only [Option.getD_some, hop]
+  have := load_concat cfg' now [] more (by simp) hm
+  simpa [encodeData] using this
 
 def r3 : Rec := mk 0x55
 
-/-- The former counterexample (torn image of 84 bytes reopened, `r3` appended) now works: the file is cut back to 76 bytes,
-`r3` lands at a record boundary and the following restart recovers `[r1, r3]`. -/
+/-- The torn image of 84 bytes reopened, `r3` appended: the file is cut back to 76 bytes, `r3` lands at a record boundary and the
+following restart recovers `[r1, r3]`. -/
 theorem C08_second_restart_torn_example :
     let img := (encodeFile [r1, r2]).take (12 + 64 + 20)
-    let after := appendAfterRestart 4096 img (some []) [r3]
+    let after := appendAfterRestart 4096 4096 img (some []) [r3]
     after.1.length = 140 ∧ load 4096 0 after.1 after.2 = ([r1, r3], true) := by
   decide
 
 def v1 : Rec := ⟨62 :: 0 :: List.replicate 54 0x11 ++ [0x20] ++ List.replicate 7 0, some [2, 0, 0, 0, 0xaa, 0xaa]⟩
 def v2 : Rec := ⟨62 :: 0 :: List.replicate 54 0x44 ++ [0x20] ++ List.replicate 7 0, some [1, 0, 0, 0, 0xbb]⟩
 
-/-- **`C08_second_restart` is still false after a crash between the two writes of a flush**: `v1`'s record reached the disk,
-its value did not (record file complete, value file empty). The first restart is clean (nothing loaded). After it `v2` is
-appended with its value; the following restart hands `v1` to the engine with `v2`'s value, and `v2` not at all. -/
-theorem C08_second_restart_fails_value :
+/-- The former counterexample (crash between the two writes of a flush: `v1`'s record on disk, its value not) is repaired: the
+first restart recovers nothing and cuts `v1`'s record off the file; `v2` appended afterwards is recovered with its own value. -/
+theorem C08_second_restart_value_repaired :
     load 4096 0 (encodeFile [v1]) [] = ([], true) ∧
-    (let after := appendAfterRestart 4096 (encodeFile [v1]) (some []) [v2]
-     load 4096 0 after.1 after.2 = ([⟨v1.buf, v2.data⟩], true)) := by
+    startupFiles 4096 (zeros 64) (encodeFile [v1]) (some []) = (headerBytes, some []) ∧
+    (let after := appendAfterRestart 4096 4096 (encodeFile [v1]) (some []) [v2]
+     load 4096 0 after.1 after.2 = ([v2], true)) := by
   decide
 
 example : WFRec v1 ∧ WFRec v2 := by
